@@ -10,7 +10,9 @@ from ..repo import tad, reverse_dfs, NOSOL
 
 PROP = "C10"
 OPS = ("same-object/prune", "same-object/no-prune", "fresh-object/prune", "fresh-object/no-prune",
-       "component/validate", "component/count")      # the last two: check_game + init_states, count_transitions on the persistent object
+       "component/validate", "component/count",
+       "debuglog-fresh-object/prune", "debuglog-fresh-object/no-prune")      # component/*: check_game + init_states, count_transitions on the persistent object; debuglog-*: the solve runs with the
+# root logger at DEBUG level (the tool's -l d option) - a configuration that must not change any result
 CPU = 0.3
 
 
@@ -69,6 +71,19 @@ class World:
                 return ("aux",) + outcome_of(fn)[1:]
             return ("aux",) + outcome_of(self.sg.count_transitions)[1:]
         prune = mode == "prune"
+        if where == "debuglog-fresh-object":
+            import logging
+            root = logging.getLogger()
+            if not any(isinstance(h, logging.NullHandler) for h in root.handlers):
+                root.addHandler(logging.NullHandler())
+            old_level = root.level
+            logging.disable(logging.NOTSET)
+            root.setLevel(logging.DEBUG)
+            try:
+                return outcome_of(lambda: tad.StochasticGame(prune_states=prune, **self.desc).solve())
+            finally:
+                root.setLevel(old_level)
+                logging.disable(logging.CRITICAL)
         if where == "same-object":
             self.sg.prune_states = prune
             return outcome_of(self.sg.solve)
@@ -208,8 +223,8 @@ def work(shard):
     return out
 
 
-RULE = ("for every stopping game of the listed universes: breadth-first exploration of all histories over the 6 operations ({same object, fresh "
-        "object} x {pruned, unpruned} solves, plus check_game+init_states and count_transitions on the persistent object) on ONE caller-owned description, states = canonical deep snapshot of (description, persistent object's "
+RULE = ("for every stopping game of the listed universes: breadth-first exploration of all histories over the 8 operations ({same object, fresh "
+        "object} x {pruned, unpruned} solves, check_game+init_states and count_transitions on the persistent object, and fresh-object solves with the root logger at DEBUG level) on ONE caller-owned description, states = canonical deep snapshot of (description, persistent object's "
         "attributes, non-callable module globals of tad and reverse_dfs), de-duplicated; depth bound per tier; after every operation the "
         "description must equal the pristine copy and the result must equal (==) the result of that mode computed once in a forked fresh "
         "process; 'closed' = no unexplored state remained at the depth bound, so the claim extends to histories of any length; "
